@@ -362,15 +362,24 @@ func GenWorldCfg(g *Rng, opt GenOpts) (World, map[string]any) {
 		}
 		add(gContent{m: m})
 	}
-	if x.feat("symlink", 0.5) {
+	symP, hostP := 0.5, 0.5
+	if opt.SharedBias {
+		symP, hostP = 0.8, 0.7
+	}
+	if x.feat("symlink", symP) {
 		target := "/usr/bin/app"
-		if !opt.NoHostLinks && g.Bool(0.5) {
+		if !opt.NoHostLinks && g.Bool(hostP) {
 			target = Pick(g, []string{"/etc/hostname", "/etc/passwd", "/bin/sh"})
 			x.feats = append(x.feats, "symlink_host_target")
 		}
 		m := map[string]any{"src": target, "dst": "/usr/bin/app-link", "type": "symlink"}
 		if g.Bool(fiP) {
-			m["file_info"] = x.fileInfo(false)
+			fi := x.fileInfo(false)
+			if opt.SharedBias && g.Bool(0.7) {
+				delete(fi, "mode") // mode then comes from stat(target) minus the format's umask
+				fi["owner"] = "app"
+			}
+			m["file_info"] = fi
 		}
 		add(gContent{m: m})
 	}
